@@ -230,3 +230,21 @@ def successive_approx(family, G, cf, bounds, re_b, grid_k_total=0.0,
             return xn
         x = xn
     return None
+
+
+def approx_split(G, cf, bounds, re_b, beta=5.0):
+    """Closed-form transition approximation of Cheng's 1984 thesis (eq. 4.51)
+    with the weighting beta; only used to *name* a mechanism (whether a split
+    that came out of this approximation was built from given constants)."""
+    mt = M['turbulent']
+    a = cf['laminar'] * G['De_b'] / G['de'] ** 2
+    b = cf['turbulent'] * G['De_b'] ** mt / G['de'] ** (mt + 1.0)
+    psi = float((np.log10(re_b) - np.log10(bounds[0]))
+                / (np.log10(bounds[1]) - np.log10(bounds[0])))
+    if not -1e-9 <= psi <= 1.0 + 1e-9:
+        return None
+    psi = min(max(psi, 0.0), 1.0)
+    xr = a * (1.0 - psi) ** GAMMA / re_b \
+        + beta * (b * psi ** GAMMA / re_b ** mt) ** (1.0 / (2.0 - mt))
+    r = xr[1] / xr
+    return r / float(np.sum(G['s'] * r))
